@@ -222,6 +222,7 @@ class History:
                 # history goes on on the copy (registers, wires, indexes)
                 self.__dict__.setdefault("sources", []).append((circ, {k: list(v) for k, v in dict(circ.register).items()},
                                                                 (circ.n_emitters, circ.n_photons, circ.n_classical), len(self.desc)))
+                self.sources = self.sources[-2:]    # the two most recent sources stay under observation (bounds the cost of long histories)
                 ctx.count("copy:sources_kept")
                 self.circ = new
                 for o in prog.ops:
